@@ -292,7 +292,7 @@ def method_accuracy(m, f, a, b):
     S = f.scale(a, b)
     base = TOL12 * max(S, 1e-300)
     if m["m"] == "simpson":
-        n = NODE_COUNTS.get(m["divs"], m["divs"] + m["divs"] % 2 - 2)     # divisions the code really uses (phase 0)
+        n = m["divs"] - 2          # from the REQUESTED divs (C12_norm_bounds: the code uses between divs - 2 and divs divisions)
         if isinstance(f, Poly):
             if len(f.cs) <= 4:
                 return base, "exact(degree<=3)"
@@ -1301,6 +1301,13 @@ def run(ctx):
     obs0 = run_jobs(ctx, binp, count_jobs(), nproc=4)
     counts = {int(k[1:]): o["evals"] - 1 for k, o in obs0.items() if o.get("ok") and o.get("evals", 0) > 1}
     NODE_COUNTS.update(counts)
+    # the division count read off the running code must stay within 2 of the requested one (C12_norm_bounds)
+    off = [(d, n) for d, n in sorted(counts.items()) if 4 <= d <= 400 and not (d - 2 <= n <= d)]
+    if off:
+        ctx.violation("S5", f"Integrator::Simpson {{ divs: {off[0][0]} }}.integrate evaluates the integrand at {off[0][1] + 1} points ({off[0][1]} divisions), "
+                            f"not the {off[0][0] - 2}..{off[0][0]} divisions requested ({len(off)} of {len(counts)} values of divs in 4..400 are off)",
+                      {"kind": "division_count", "method": "Simpson", "dim": 1},
+                      {"call": f"Integrator::Simpson {{ divs: {off[0][0]} }}.integrate(|x| 0, 0., 1.)", "observed_divisions": off[:20]})
     C = build_cases(ctx, rng, counts=counts)
     obs = run_jobs(ctx, binp, C.jobs)
     try:
